@@ -8,8 +8,9 @@
    histories; [abs_sq] / [abs_m] read a table / a MockStorage dict as such a map; [sp_equiv] is equality
    of maps (same lookup for every key).  [wf_sq T] (ids pairwise different: the PRIMARY KEY constraint)
    holds for the empty table and is preserved by every call, so it holds for every table the code can
-   produce.  Atomicity of a call (the mutex in __db_execute, autocommit) is an assumption about the
-   runtime: a call is one step of the model. *)
+   produce.  Atomicity of a call (the mutex in __db_execute, which since the repository's `fix:` commit
+   637ed7d also covers fetching the rows; autocommit) is an assumption about the runtime: a call is one
+   step of the model. *)
 From Coq Require Import NArith List Bool Permutation.
 From CS Require Import Sx Str StoreModel StoreProofs.
 Import ListNotations.
@@ -23,29 +24,23 @@ Proof. exact (fun s k k' b => conj (sp_get_set k b k' s) (conj (sp_get_del k k' 
 Print Assumptions C09_spec_map_laws.
 
 (* ------------------------------------------------------------------ SqliteStorage refines the map *)
-(* full strength: every result, exactly as returned, is one the map allows *)
-Definition store_refines_full : Prop :=
-  forall ops, exists s', sp_trace [] (history view_raw ops (fst (run_ops sq_step [] ops))) s'.
-
-(* false: read() returns the row tuple (b'..',) and not the bytes.  Witness: create('t', b'\x01'); read('t', 1) *)
-Theorem C09_store_refines_refuted : ~ store_refines_full.
-Proof. exact sq_refines_full_refuted. Qed.
-Print Assumptions C09_store_refines_refuted.
-
-(* one call: with read's 1-tuple unwrapped ([unrow]), the result is the map's and the abstraction commutes *)
+(* one call: the result, exactly as returned, is one the map allows, and the abstraction commutes *)
 Theorem C09_store_refines_step : forall T o, wf_sq T ->
   wf_sq (snd (sq_step T o)) /\
-  exists s', sp_ok (abs_sq T) o (unrow (fst (sq_step T o))) s' /\ sp_equiv s' (abs_sq (snd (sq_step T o))).
+  exists s', sp_ok (abs_sq T) o (fst (sq_step T o)) s' /\ sp_equiv s' (abs_sq (snd (sq_step T o))).
 Proof. exact sq_step_refines. Qed.
 Print Assumptions C09_store_refines_step.
 
-(* every call sequence (incl. close/reopen), from every well-formed table *)
-Theorem C09_store_refines_partial : forall ops T, wf_sq T ->
-  exists s', sp_trace (abs_sq T) (history view_sq ops (fst (run_ops sq_step T ops))) s' /\
+(* every call sequence (incl. close/reopen), from every well-formed table, results taken as they are
+   ([view_raw] is the identity).  Before the repository's `fix:` commit 9d0a73d this statement was false
+   (read returned the row tuple; witness create('t', b'\x01'); read('t', 1)) and was kept here as
+   C09_store_refines_refuted. *)
+Theorem C09_store_refines : forall ops T, wf_sq T ->
+  exists s', sp_trace (abs_sq T) (history view_raw ops (fst (run_ops sq_step T ops))) s' /\
              sp_equiv s' (abs_sq (snd (run_ops sq_step T ops))) /\
              wf_sq (snd (run_ops sq_step T ops)).
 Proof. exact sq_refines. Qed.
-Print Assumptions C09_store_refines_partial.
+Print Assumptions C09_store_refines.
 
 (* ------------------------------------------------------------------ corollaries, stated on the model directly *)
 (* create returns an id that no live row uses — of any tag — and adds exactly that row *)
@@ -56,11 +51,11 @@ Print Assumptions C09_create_fresh.
 
 (* read returns the value of the last acknowledged write (create or update) of that tag and id, whatever
    calls came in between — other tags, other ids, creates, reads, close/reopen — as long as none of them
-   updates or deletes that very (tag, id); the value comes wrapped in the 1-tuple (see _refuted above) *)
+   updates or deletes that very (tag, id) *)
 Theorem C09_read_last_write : forall T w t b i ops, wf_sq T ->
   (w = Create t b /\ fst (sq_step T w) = RId i) \/ (w = Update t b i /\ fst (sq_step T w) = RCount 1) ->
   Forall (fun o => touches (t, i) o = false) ops ->
-  fst (sq_step (snd (run_ops sq_step (snd (sq_step T w)) ops)) (Read t i)) = RRow [b].
+  fst (sq_step (snd (run_ops sq_step (snd (sq_step T w)) ops)) (Read t i)) = RBytes b.
 Proof. exact sq_read_last_write. Qed.
 Print Assumptions C09_read_last_write.
 
@@ -118,9 +113,9 @@ Theorem C09_serial_no_lost_write : forall (progs : list (list op)) (sched : list
   let rs := fst (run_ops sq_step T sched) in
   let T' := snd (run_ops sq_step T sched) in
   Permutation (concat progs) sched /\
-  (exists s', sp_trace (abs_sq T) (history view_sq sched rs) s' /\ sp_equiv s' (abs_sq T')) /\
+  (exists s', sp_trace (abs_sq T) (history view_raw sched rs) s' /\ sp_equiv s' (abs_sq T')) /\
   wf_sq T' /\
-  sp_equiv (fold_left apply_ack (history view_sq sched rs) (abs_sq T)) (abs_sq T') /\
+  sp_equiv (fold_left apply_ack (history view_raw sched rs) (abs_sq T)) (abs_sq T') /\
   (Forall (fun o => is_delete o = false) sched -> NoDup (created_ids sched rs)).
 Proof. exact sq_serial_no_lost_write. Qed.
 Print Assumptions C09_serial_no_lost_write.
@@ -173,7 +168,7 @@ Proof. vm_compute. reflexivity. Qed.
 Example wf_reachable : wf_sq [(1%N, tA, [1%N]); (2%N, tB, []); (3%N, tB, [7%N])].
 Proof.
   rewrite <- reachable_table.
-  destruct (C09_store_refines_partial [Create tA [1%N]; Create tB []; Create tA [255%N]; Delete tA 3%N; Create tB [7%N]] [] wf_empty)
+  destruct (C09_store_refines [Create tA [1%N]; Create tB []; Create tA [255%N]; Delete tA 3%N; Create tB [7%N]] [] wf_empty)
     as [s' [_ [_ W]]]. exact W.
 Qed.
 
@@ -202,8 +197,8 @@ Example inv_m_empty : inv_m m_init.
 Proof. exact inv_m_init. Qed.
 
 (* the witnesses of the refutations, as the models compute them *)
-Example sqlite_read_witness :
-  fst (run_ops sq_step [] [Create tA [1%N]; Read tA 1%N; Read tA 2%N]) = [RId 1; RRow [[1%N]]; RNone].
+Example sqlite_read_inst :
+  fst (run_ops sq_step [] [Create tA [1%N]; Read tA 1%N; Read tA 2%N]) = [RId 1; RBytes [1%N]; RNone].
 Proof. vm_compute. reflexivity. Qed.
 
 Example mock_reissue_witness :
